@@ -721,6 +721,31 @@ def _apply_real(s, model, op):
     raise ValueError(op)
 
 
+_BASE_COLS = ("offset", "column", "bpm", "length", "metronome")
+_GAME_OF_PACKAGE = dict(osu="osu", quaver="qua", sm="sm", bms="bms", o2jam="o2j")
+
+
+def _game_of(obj):
+    parts = type(obj).__module__.split(".")
+    return _GAME_OF_PACKAGE.get(parts[1] if len(parts) > 1 else "", "base")
+
+
+def _missing_prop(s, model, op):
+    """A whole-column op on a column that occurs in the DATA of the stacked lists, while the stack has no attribute of that
+    name at all (reading it raises AttributeError): -> the column name.  A class of its own (`stack_property_missing.<game>.
+    <column>`): a plain `stack.<col> = v` would silently set an ordinary attribute, `stack.<col> += v` raises.  Only for the ops
+    generated from the data (marked with a 4th element "data"); the ops of the hand-written alphabets keep reporting under
+    `stack_op_raises` / `assigned_values` as they always did."""
+    if op[0] in ("iadd", "imul", "isub", "idiv", "set", "self") and len(op) > 3 and op[3] == "data" and model.has_col(op[1]):
+        try:
+            getattr(s, op[1])
+        except AttributeError:
+            return op[1]
+        except Exception:  # noqa  (anything else is the op's own failure: reported by the caller as stack_op_raises)
+            return None
+    return None
+
+
 def _run_ops(m, ops, check_from=0, s=None):
     """the ops of a chart case on the chart m (through the stacker s, default a new m.stack()); returns [(what, detail)]"""
     model = _Model(m)
@@ -739,6 +764,12 @@ def _run_ops(m, ops, check_from=0, s=None):
                 out.append(("stack_op_raises", f"op {k} {op}: {type(ex).__name__}: {ex}"))
                 return out
         else:
+            miss = _missing_prop(s, model, op)
+            if miss is not None:
+                have = sorted(n for n in model.included() if miss in model.lists[n]["data"])
+                out.append((f"stack_property_missing.{_game_of(m)}.{miss}", f"op {k} {op}: the lists {have} of the chart carry a column {miss!r}, {type(s).__qualname__} has no attribute of that name: "
+                                                                         f"`stack.{miss} = v` sets an ordinary attribute and changes no list, `stack.{miss} += v` raises AttributeError"))
+                return out
             try:
                 r = _apply_real(s, model, op)
             except Exception as ex:  # an applicable assignment must not raise
@@ -819,6 +850,67 @@ def _alphabet(game, nrows, full):
     if full:
         ops += _more_restacks(game)
     return ops
+
+
+_DATA_COLS = {}
+
+
+def _data_columns(game):
+    """{column name: a value found in it} over every stacked list of every chart of the game: the names come from the DATA
+    (the frames of the lists), not from a table of the library."""
+    if game not in _DATA_COLS:
+        found = {}
+        for label, spec, nrows in _c12_specs(game):
+            m = _fresh(spec)
+            for lst in m.objs.values():
+                for c in lst.df.columns:
+                    vals = [x for x in lst.df[c].tolist() if not (isinstance(x, float) and math.isnan(x))]
+                    if str(c) not in found or (found[str(c)] is None and vals):
+                        found[str(c)] = (vals[0].item() if isinstance(vals[0], np.generic) else vals[0]) if vals else None
+        _DATA_COLS[game] = found
+    return _DATA_COLS[game]
+
+
+def _data_ops(game, spec, rich):
+    """Ops on every column that occurs in a stacked list of THIS chart beyond the five base ones: plain assignment of one
+    value of the column's own kind (bool / int / float / str / bytes), and on `rich` charts also += (numbers), self-assignment
+    and a conditional assignment through loc."""
+    m = _fresh(spec)
+    here = []
+    for lst in m.objs.values():
+        for c in lst.df.columns:
+            if str(c) not in here and str(c) not in _BASE_COLS:
+                here.append(str(c))
+    ops = []
+    for c in here:
+        v0 = _data_columns(game).get(c)
+        if isinstance(v0, bool):
+            v, num = (not v0), False
+        elif isinstance(v0, int):
+            v, num = 3, True
+        elif isinstance(v0, float):
+            v, num = 2.5, True
+        elif isinstance(v0, str):
+            v, num = "z.wav", False
+        elif isinstance(v0, bytes):
+            v, num = {"bytes": "x.wav"}, False
+        else:
+            v, num = None, False  # lists (keysounds) / nothing seen: self-assignment only
+        if v is not None:
+            ops.append(["set", c, v, "data"])
+        if rich or v is None:
+            ops.append(["self", c, None, "data"])
+        if rich and num:
+            ops += [["iadd", c, 2, "data"], ["isub", c, {"np": "int64", "v": 1}, "data"]]
+        if rich and v is not None:
+            ops.append(["loc", "set", {"cond": ["offset", ">", 400.0]}, c, v])
+    return ops
+
+
+RICH_SPECS = ("small", "larger", "with_sv", "sm_all_lists", "negative_large", "filtered")
+# the whole range of the value: negative and huge shifts, a sign flip (the documented way of reversing columns), zero
+RANGE_OPS = [["iadd", "offset", -1000000000.5], ["iadd", "offset", 1e12], ["imul", "column", -1], ["imul", "offset", 0], ["set", "column", 0], ["iadd", "column", -3],
+             ["set", "bpm", 1e-3], ["loc", "iadd", {"cond": ["offset", ">=", 500.0]}, "column", -1]]
 
 
 def _more_restacks(game):
@@ -906,9 +998,24 @@ def _c12_game(rep, game):
     # alphabet, every further type restriction followed by assignments, some single ops and sequences of the complete alphabet
     # (half of the sequences with a second chart + stacker alive)
     alph = {label: (_alphabet(game, nrows, True), _alphabet(game, nrows, False)) for label, spec, nrows in specs}
+    # pass 0 (first of all, a few dozen cases): every column name found in the data, every access form, on the one small chart
+    # that fills every list kind the game's other small charts fill
+    first = "with_sv" if game in ("osu", "qua") else "small"
+    for label, spec, nrows in specs:
+        if label == first:
+            for op in _data_ops(game, spec, True):
+                run(spec, [op])
     for label, spec, nrows in specs:  # pass 1: the reduced alphabet, one op at a time
         for op in alph[label][1]:
             run(spec, [op])
+    n_data = n_seq[0]
+    for label, spec, nrows in specs:  # pass 1b: every column name found in the data of the chart's lists; the value range
+        for op in (_data_ops(game, spec, label in RICH_SPECS) if label != first else []):
+            run(spec, [op])
+        for op in RANGE_OPS:
+            run(spec, [op])
+    rep.extra["data_columns"] = {k: type(v).__name__ for k, v in _data_columns(game).items()}
+    rep.extra["data_column_and_range_cases"] = n_seq[0] - n_data
     for label, spec, nrows in specs:  # pass 2: a first draw from the complete alphabet
         full = alph[label][0]
         for op in rng.sample(full, min(3, len(full))):
@@ -962,7 +1069,9 @@ def _c12_game(rep, game):
     rep.bound = (f"{game}: {len(specs)} charts (<= 4 stacked rows incl. empty lists, gappy / filtered labels; one larger chart; added: empty tempo list alone, rows not in time order, "
                  f"permuted / reversed / sorted()-made labels on notes, tempo, SV and stop lists, ties (two notes / tempo changes / SVs at one time), zero-length hold on a mask threshold, "
                  f"negative / 1e9 / fractional times, integer-typed offset and length columns, every StepMania list kind filled, osu samples filled, single row); "
-                 f"breadth first on every chart: reduced-alphabet single ops, {len(_more_restacks(game))} further type restrictions (NoteList, exact list classes) x 3 assignments, 6 + 4 random complete-alphabet ops / "
+                 f"breadth first on every chart: reduced-alphabet single ops, EVERY COLUMN NAME FOUND IN THE DATA of the chart's stacked lists beyond the five base ones ({sorted(set(_data_columns(game)) - set(_BASE_COLS))}: "
+                 f"plain assignment of a value of the column's kind; on {len([x for x in specs if x[0] in RICH_SPECS])} charts also += / -= / self-assignment / loc assignment; a column the stack does not expose is the class stack_property_missing.<game>.<column>), "
+                 f"{len(RANGE_OPS)} value-range ops (shift by -1e9 / +1e12, column * -1, offset * 0, column = 0, column - 3, bpm = 0.001), {len(_more_restacks(game))} further type restrictions (NoteList, exact list classes) x 3 assignments, 6 + 4 random complete-alphabet ops / "
                  f"length-3 sequences (half with a second equal chart and its stacker alive); then every single op of the complete alphabet "
                  f"(whole-column += -= *= /= self-assign and plain assignment of one value on offset/column/bpm/length/metronome, python and numpy scalar values, loc[mask, col(s)] = / += with ALL 2^n positional masks and 6 condition masks "
                  f"(two with rows exactly on the threshold) on 4 single and 2 double "
@@ -1024,6 +1133,8 @@ def _run_mapset_ops(ms, ops, check_from=0, s=None):
             col = op[1]
             if not all(md.has_col(col) for md in models):
                 continue
+            if models and _missing_prop(s, models[0], op) is not None:
+                return out + [(f"stack_property_missing.{_game_of(ms)}.{col}", f"op {k} {op}: the lists of every chart of the set carry a column {col!r}, {type(s).__qualname__} has no attribute of that name")]
             try:
                 if op[0] == "self":
                     setattr(s, col, getattr(s, col))
@@ -1134,6 +1245,18 @@ def _c12_mapset_game(rep, game):
         for what, d in _run_mapset_case(case, check_from=len(sq) - 1):
             rep.fail(what, case, d)
 
+    # every column name found in the data of the charts' lists beyond the five base ones, for the games that have a mapset class
+    # of their own (a plain reamber.base.MapSet of osu / Quaver / BMS charts is a generic container: not asserted there)
+    data_ops = []
+    if game_table()[game]["mapset"] is not None:
+        for c, v0 in _data_columns(game).items():
+            if c not in _BASE_COLS:
+                data_ops += [["self", c, None, "data"]] + ([["iadd", c, 1, "data"]] if isinstance(v0, (int, float)) and not isinstance(v0, bool) else [])
+    for label, spec in specs:
+        if label in ("one", "two_ragged", "three"):
+            for op in data_ops:
+                run(spec, [op])
+    rep.extra["data_column_ops"] = data_ops
     # breadth first, so that a time cut never leaves a mapset unvisited: (0) one op on each stacked property + two sequences on every
     # mapset, (1) every single op, (2) random sequences, (3) all pairs, (4) all triples
     for label, spec in specs:
@@ -1162,7 +1285,7 @@ def _c12_mapset_game(rep, game):
     rep.extra["mapsets"] = [x[0] for x in specs]
     rep.extra["sequences_breadth_first_phase"] = n0
     rep.bound = (f"{game}: {len(specs)} mapsets (1-5 charts of different sizes, two equal charts, no chart; an all-empty chart and a chart without holds / hits / tempo rows at the FIRST, a MIDDLE and the last "
-                 f"position, only empty charts; gappy / filtered / permuted / reversed / sorted()-made labels and rows not in time order on notes and tempo lists, ties, zero-length holds, negative / 1e9 / fractional "
+                 f"position, only empty charts; sm / o2j: every game specific column name found in the data, += 1 and self-assignment, class stack_property_missing.<game>.<column>; gappy / filtered / permuted / reversed / sorted()-made labels and rows not in time order on notes and tempo lists, ties, zero-length holds, negative / 1e9 / fractional "
                  f"times, integer-typed columns, SV lists (osu, quaver), every StepMania list kind): breadth first 6 ops + 2 sequences on every mapset (one with a second equal mapset and its stacker alive), "
                  f"then every single whole-column op (+=, -=, *=, /=, self-assign on offset/column/bpm/length/metronome, python and numpy scalar values; re-stack), {rep.n(10, 300)} random length-3 sequences per mapset "
                  f"(every 3rd with a twin), all length-2 sequences over a 7-op alphabet, all length-3 sequences "
@@ -1234,9 +1357,9 @@ def _real_direct(m, step):
         setattr(m, name, lst.append(lst[0:1]))
 
 
-def _run_stale_case(case):
+def _run_stale_case(case, stale=True):
     """case: dict(spec=, history=[["new", s] | ["op", s, op] | ["direct", kind, list, ...]]).  Every difference from the per-list
-    oracle is reported under the one clause `stale_stacker`."""
+    oracle is reported under the one clause `stale_stacker` (stale=False: under the ordinary clause ids)."""
     m = _fresh(case["spec"])
     model = _Model(m)
     fields0 = _fields_of(m)
@@ -1253,10 +1376,10 @@ def _run_stale_case(case):
             try:
                 r = _apply_real(st[step[1]], model, step[2])
             except Exception as ex:
-                return [("stale_stacker", f"step {k} {step}: {type(ex).__name__}: {ex}")]
+                return [("stale_stacker" if stale else "stack_op_raises", f"step {k} {step}: {type(ex).__name__}: {ex}")]
             if r == "skip":
                 continue
-        bad = _compare(m, model, fields0, stale=True)
+        bad = _compare(m, model, fields0, stale=stale)
         if bad:
             return [(wh, f"after step {k} {step}: {d}") for wh, d in bad[:1]]
     return []
@@ -1311,5 +1434,59 @@ def stale_stacker_histories(rep):
 @replayer("stale_stacker_histories")
 def _replay_stale(case, what):
     bad = _run_stale_case(case)
+    hit = [d for w, d in bad if w == what]
+    return (bool(hit), hit[0] if hit else "passes")
+
+
+# ---------------------------------------------------------------------------------------------------------------- stack - change - stack again
+def _fresh_after_change_histories():
+    """s = m.stack(); an assignment through s; the lists are changed directly (public list operations: col += v on a list,
+    assigning a filtered / re-sorted / longer list to the chart); s = m.stack() AGAIN; an assignment through the new s.
+    No stacker is ever used after a change it has not seen, so the per-list oracle applies to every step."""
+    direct = [
+        ["direct", "iadd", "hits", "offset", 5],
+        ["direct", "iadd", "hits", "column", 1],
+        ["direct", "iadd", "holds", "length", 2.5],
+        ["direct", "iadd", "bpms", "bpm", 5],
+        ["direct", "filter_after", "hits", 250.0],
+        ["direct", "filter_after", "holds", 250.0],
+        ["direct", "filter_after", "bpms", -1.0],
+        ["direct", "reverse", "hits"],
+        ["direct", "append_first", "hits"],
+        ["direct", "append_first", "bpms"],
+    ]
+    before = [["iadd", "offset", 1], ["imul", "column", 2], ["self", "bpm"]]
+    after = [["iadd", "offset", 1], ["imul", "bpm", 2], ["iadd", "column", 1], ["iadd", "length", 1], ["self", "offset"], ["loc", "set", {"cond": ["offset", ">", 400.0]}, "column", 3]]
+    out = []
+    for d in direct:
+        for i, u in enumerate(after):
+            out.append([["new", "s"], ["op", "s", before[i % len(before)]], d, ["new", "s"], ["op", "s", u]])
+    # two rounds of change - re-stack, and a change before the very first stack
+    out.append([["new", "s"], ["op", "s", ["iadd", "offset", 1]], direct[4], ["new", "s"], ["op", "s", ["iadd", "column", 1]], direct[8], ["new", "s"], ["op", "s", ["imul", "offset", 2]]])
+    out.append([direct[1], ["new", "s"], ["op", "s", ["iadd", "column", 1]], direct[7], ["new", "s"], ["op", "s", ["self", "column"]], ["op", "s", ["iadd", "offset", 3]]])
+    return out
+
+
+@bounded("C12", note="stack - assign - change the lists through public list operations - stack AGAIN - assign: the new stacker must see the chart as it is now (nothing cached from the first stack)")
+def restack_after_direct_change(rep):
+    hs = _fresh_after_change_histories()
+    for game in GAMES:
+        specs = [x for x in _c12_specs(game) if x[0] in ("small", "filtered", "larger", "empty_holds", "unsorted_perm")]
+        for h in hs:  # breadth first over the charts
+            for label, spec, nrows in specs:
+                if rep.out_of_time(30, 200):
+                    break
+                case = dict(spec=spec, history=h)
+                rep.case(case, nontrivial=True)
+                for what, d in _run_stale_case(case, stale=False):
+                    rep.fail(what, case, d)
+    rep.bound = (f"5 games x 5 charts x {len(hs)} histories: s = m.stack(); one assignment through s (3 ops); the lists changed directly (list.offset / column / length / bpm += v, m.hits / holds / bpms = "
+                 f"list.after(t), reverse sort, append: 10 changes); s = m.stack() again; one assignment through the new s (6 ops incl. a conditional one); 2 longer histories with two rounds")
+    rep.rule = "a case is (chart, history); compared with the per-list oracle after every step under the ordinary clause ids; no stacker is used after a change it has not seen"
+
+
+@replayer("restack_after_direct_change")
+def _replay_fresh(case, what):
+    bad = _run_stale_case(case, stale=False)
     hit = [d for w, d in bad if w == what]
     return (bool(hit), hit[0] if hit else "passes")
